@@ -25,6 +25,8 @@ import H3.Spec.Qpack
         q0.st:<hdrs>     send_trailers                    q0.rt   recv_trailers
         q0.sp            split: `q0` keeps the receive half (`q0.rr`, `q0.rt`), the send half is
                          task `q0s` (`q0s.sr:…`, `q0s.st:…`)
+        snd.R:… again    client: further requests on the SAME `SendRequest` handle (streams 4, 8, …;
+                         a request refused for its size has opened its stream and written nothing)
 
     and prints what `Prop.project` keeps of the real run: the results of the `q0`/`snd` calls
     (`ok` without the message), the bytes written on stream 0 with its stop/reset codes, and
@@ -151,6 +153,10 @@ structure St where
   tag : Bool := false
   unsure : Bool := false
   bad : Bool := false
+  /-- client: number of `send_request` calls so far (each opens the next bidirectional stream, also
+      when the request is then refused) and what was written on the streams after stream 0 -/
+  nreq : Nat := 0
+  more : List (Nat × List Nat) := []
 
 def St.log (s : St) (e : String) : St := { s with trace := s.trace ++ [e] }
 
@@ -213,7 +219,7 @@ def openRequest (d : Decisions) (fs : List Field) (atCall : Option Nat) (s : St)
 /-- a grant of stream credit lets a pending `send_request` go on -/
 def resume (d : Decisions) (s : St) : St :=
   match s.pendingReq, s.credit with
-  | some (fs, atCall), some (c + 1) => openRequest d fs atCall { s with pendingReq := none, credit := some c }
+  | some (fs, atCall), some (c + 1) => { (openRequest d fs atCall { s with pendingReq := none, credit := some c }) with nreq := 1 }
   | _, _ => s
 
 /-- the driver, when it is polled, reads what the control stream holds -/
@@ -297,15 +303,26 @@ def step1 (d : Decisions) (s : St) (op : String) : St :=
         if !s.rx.isEmpty then unsupported else
         applyRecv d (if s.server then .serverTrailers else .clientTrailers) "q0.rt" "trailers" payload s
     else if head == "snd.R" then
-      if s.server || s.s0 || s.pendingReq.isSome then unsupported else
+      if s.server || s.pendingReq.isSome then unsupported else
       match arg.splitOn ":" with
       | ["GET", "68747470733a2f2f612f", hdrs] =>
         match parseHdrs hdrs with
         | none => unsupported
         | some hs =>
-          match s.credit with
-          | some 0 => { s with pendingReq := some (requestFields hs, s.peer) }
-          | c => openRequest d (requestFields hs) s.peer { s with credit := c.map (· - 1) }
+          if !s.s0 then
+            match s.credit with
+            | some 0 => { s with pendingReq := some (requestFields hs, s.peer) }
+            | c => { (openRequest d (requestFields hs) s.peer { s with credit := c.map (· - 1) }) with nreq := 1 }
+          else if s.credit.isSome then unsupported else
+            -- a further request on the same handle: its own stream, its own field section —
+            -- nothing of an earlier request (accepted or refused) is part of it
+            let sid := 4 * s.nreq
+            match d.send s.peer (requestFields hs) with
+            | .written b =>
+              { (s.log s!"snd.R=req:{sid}") with more := s.more ++ [(sid, headersFrame b)], nreq := s.nreq + 1 }
+            | .refused a m =>
+              { (s.log s!"snd.R=err:toobig:{a}:{m}") with more := s.more ++ [(sid, [])], nreq := s.nreq + 1 }
+            | .panic => unsupported
       | _ => unsupported
     else if head == "q0.rr" then
       if s.server || !s.q0 || s.resolved || !s.driving then unsupported else
@@ -323,7 +340,8 @@ def render (s : St) : String :=
       s!"0:tx={toHex s.tx}" ++ (match s.stop with | some c => s!",stop={c}" | none => "") ++ " "
     else ""
   let cl := ",".intercalate (s.closed.map toString)
-  s!"{t} | {st}closed=[{cl}]"
+  let more := String.join (s.more.map (fun p => s!"{p.1}:tx={toHex p.2} "))
+  s!"{t} | {st}{more}closed=[{cl}]"
 
 def run (d : Decisions) (server : Bool) (mfs : Nat) (credit : Option Nat) (ops : List String) : String :=
   let s := ops.foldl (step d) { server := server, mfs := mfs, credit := credit }
